@@ -83,6 +83,7 @@ def mutants_of(path, covered):
 
 
 def run_checks(scr, checks, seed):
+    herr = None
     for c in checks:
         env = dict(os.environ, FORSYS_REPO=scr, VERIF_SEED=str(seed))
         env.pop("VERIF_COVER", None)
@@ -96,9 +97,11 @@ def run_checks(scr, checks, seed):
             first = next((l for l in out.splitlines() if l.startswith("VIOLATION")), "")
             sub = first.split("[")[1].split("]")[0] if "[" in first else ""
             return "killed", c, sub
-        if code != 0:
+        if code != 0 and herr is None:
             err = next((l for l in out.splitlines() if "HARNESS-ERROR" in l), f"exit {code}")
-            return "harness-error", c, err[:100]
+            herr = (c, err[:100])          # a check that breaks instead of reporting: keep going, but remember
+    if herr:
+        return "harness-error", herr[0], herr[1]
     return "survived", "", ""
 
 
@@ -140,6 +143,7 @@ def main():
     ap.add_argument("--out", default=os.path.join(VERIF, "AUTO_MUTANTS.md"))
     ap.add_argument("--suite", action="store_true")
     ap.add_argument("--json", default="/tmp/auto_mutants.json")
+    ap.add_argument("--rerun", default="", help="json of an earlier run: only its survivors and harness errors")
     a = ap.parse_args()
     cover = {}
     for f in sorted(os.listdir(a.cover)):
@@ -153,10 +157,16 @@ def main():
     shutil.rmtree(wdir, ignore_errors=True)
     os.makedirs(wdir)
     jobs = []
+    rerun = None
+    if a.rerun:
+        rerun = {(r["file"], r["line"], r["old"], r["new"]) for r in json.load(open(a.rerun))
+                 if r["status"] in ("survived", "harness-error")}
     for fn in files:
         ms = mutants_of(os.path.join(REPO, "forsys", fn), set(cover.get(fn, {})))
         rnd.shuffle(ms)
-        for m in ms[:a.per_file]:
+        if rerun is not None:
+            ms = [m for m in ms if (fn, m["line"], m["old"], m["new"]) in rerun]
+        for m in ms[:a.per_file if rerun is None else None]:
             first = [c for c in FILE_CHECKS[fn] if c in cover[fn][m["line"]]]
             rest = [c for c in cover[fn][m["line"]] if c not in first]
             checks = first + rest
